@@ -109,6 +109,9 @@ def pc_n(n):
     """
     
     n = ensure_numpy(n)
+    if np.issubdtype(n.dtype, np.integer):
+        # form n*(n-1) in 64 bits, not in the (possibly narrower) dtype of the counts
+        n = n.astype(np.int64)
     N = np.sum(n)
     return np.sum(n * (n - 1)) / (N * (N - 1))
 
